@@ -15,7 +15,7 @@ RULE = (
 ASSUMPTIONS = ["default schedule inside histories", "unmodified outputs only (user edits are C06)"]
 
 FAMILIES = ["f_vol", "f_optional", "f_chain", "f_subplan", "f_redefine", "f_selfprod", "f_glob", "f_amend",
-            "f_dynout", "f_nested", "f_planuse"]
+            "f_dynout", "f_nested", "f_planuse", "f_failwrite"]
 # families whose histories also contain two simultaneous edits before one build
 PAIR_FAMILIES = ("f_dynout",) 
 CFG = {"njob": 2}
